@@ -361,6 +361,31 @@ def nested_case(d, kind, mode):
     return None
 
 
+PFN_PUMP_OPENERS = ["{{#expr:", "{{#ifexpr:", "{{#time:", "{{#time:Y|",
+                    "{{formatnum:", "{{#titleparts:", "{{#replace:a|",
+                    "{{#sub:", "{{padleft:x|", "{{urlencode:", "{{#tag:ref|",
+                    "{{#switch:", "{{plural:", "{{#rel2abs:", "{{lc:",
+                    "{{#explode:", "{{#pos:", "{{fullurl:", "{{#language:",
+                    "{{anchorencode:", "{{#iferror:", "{{ns:", "{{#len:"]
+PFN_PUMP_UNITS = ["1", "9", "0", "+", "-", "*", "/", "^", "e", "1e", "E9", ".",
+                  ",", "(", ")", " ", "not ", "round ", "mod ", "and ", "=",
+                  "<", ">", "!", "a", "'", '"', "\\", ":", ";", "%", "&amp;",
+                  "&", "#", "<b>", "[[a]]", "[", "]", "{", "}", "-{}-",
+                  "{{{1}}}", "|", "|a=", "\n", "é", "../", "./", "_", "~"]
+
+
+def pfn_pump_cases(quick):
+    import itertools
+
+    for o in PFN_PUMP_OPENERS:
+        for u in PFN_PUMP_UNITS:
+            yield o + u * 40 + "}}"
+    pair = PFN_PUMP_UNITS[:14] if quick else PFN_PUMP_UNITS[:30]
+    for o in PFN_PUMP_OPENERS[: 6 if quick else len(PFN_PUMP_OPENERS)]:
+        for a, b in itertools.permutations(pair, 2):
+            yield o + (a + b) * 20 + "}}"
+
+
 def small_graph_cases():
     """All call graphs on <=3 templates (adjacency incl. self loops), each
     edge realised as a plain call in the body; page calls template 0."""
@@ -649,6 +674,40 @@ def shard_graph(idx, nshards, seed, n_random, known, quick):
             if v is not None:
                 record(part, known, buckets, v[0], v[1],
                        {"part": "pump", "text": text, "kw": kw}, len(text))
+    finally:
+        try:
+            pctx.close_db_conn()
+        except Exception:
+            pass
+
+    # the same idea inside parser-function arguments: opener + 40 x unit
+    # (or unit pair) + "}}" - tokenizers and argument parsers of #expr, #time,
+    # formatnum, the string functions ... on long monotonous input
+    pctx = env.new_ctx()
+    pctx.add_page("Template:tb", 10, "<{{{1|}}}>")
+    pctx.start_page("Test page")
+    try:
+        for j, text in enumerate(pfn_pump_cases(quick)):
+            if j % nshards != idx:
+                continue
+            status, val, el = guard.call(pctx.expand, BOUND_S, text)
+            part.case(h(("pfn-pump", text)), True, classes=["graph:pfn-pump"],
+                      sample={"page": text[:80]})
+            v = None
+            base = {"part": "graph", "class": "pfn-pump",
+                    "fn": text.split(":")[0].strip("{")}
+            if status == "timeout":
+                v = ({"kind": "timeout", **base},
+                     f"expand({text[:60]!r}...) still running after {BOUND_S}s")
+            elif status == "exc":
+                v = ({"kind": "exception", **base, **exc_bucket(val)},
+                     f"expand({text[:60]!r}...): {exc_text(val)}")
+            elif not isinstance(val, str):
+                v = ({"kind": "not-str", **base}, repr(type(val)))
+            if v is not None:
+                pctx.expand_stack = ["Test page"]
+                record(part, known, buckets, v[0], v[1],
+                       {"part": "pump", "text": text, "kw": {}}, len(text))
     finally:
         try:
             pctx.close_db_conn()
